@@ -48,7 +48,8 @@ func main() {
 		// Scenario process of the L2 family: runs one scenario against the
 		// complete client and exits.
 		r := evid.New("C12", "exploration")
-		l2.RunScenarios(r, 0, c12.L2ChildTimeout, c12.L2Scenario)
+		_, f := c12.L2All(r)
+		l2.RunScenarios(r, 0, c12.L2ChildTimeout, f)
 		return
 	}
 	child := false
@@ -132,6 +133,7 @@ func runChild() {
 	noL2 := flag.Bool("nol2", false, "debug: skip the L2 family (complete client against wire peers)")
 	l2Only := flag.Bool("l2only", false, "debug: run only the L2 family")
 	idleOnly := flag.Bool("idleonly", false, "debug: run only the idle-stall family (in-process)")
+	quietOnly := flag.Bool("quietonly", false, "debug: run only the quiet-reconnect family (in-process)")
 	l2K := flag.Int("l2k", -1, "debug: run this L2 scenario in this process and print its result")
 	r := evid.New("C12", "exploration")
 	r.Rule(ruleText)
@@ -140,7 +142,8 @@ func runChild() {
 		return
 	}
 	c12.L2Describe(r)
-	r.Assume("harness peers honour the query.Peer contract: QueueMessageWithEncoding never blocks, messages are delivered on the subscription channel, OnDisconnect is closed once; no two peers with one address are connected at the same time (a reconnect under the same address is offered only after the old instance's OnDisconnect was closed)")
+	r.Assume("harness peers honour the query.Peer contract: QueueMessageWithEncoding never blocks, messages are delivered on the subscription channel, OnDisconnect is closed once; no two peers with one address are connected at the same time (a reconnect under the same address is offered only after the old instance's OnDisconnect was closed) — except in family quietreconn, where in a fifth of the reconnects the new object is announced a moment before the old, idle one (no request outstanding) reports its disconnect")
+	r.Assume("connected-peer-never-used (family quietreconn) is judged from the recorded history alone, no clock: the batch was accepted with nothing else queued or in flight (every earlier batch had ended with success), the peer answers every request, was taken from the ConnectedPeers channel before the batch was submitted and was still connected when its verdict was read, the batch had more requests than there are other addresses ever handed to the dispatcher (its workers are keyed by address; each entry, dead or alive, takes at most one request before any result or timer is looked at), and (a) after a success / retry-limit verdict: not one request was sent to the peer in the whole scenario, or (b) after a timeout verdict, which cancels requests taken but not yet sent: the peer's messages had not even been subscribed to (a worker subscribes before it takes its first job) when the verdict was read; raised only if the batch ended with an error, was served only by a peer that connected after it was accepted, or had requests re-issued after worker timeouts")
 	r.Assume("timers of the Go runtime never fire early (used only to EXCLUDE a timer as the cause of a timeout verdict)")
 	r.Assume("NumRetries(n) means at most max(n,1) attempts per request, as implemented and as the package's own tests expect")
 	r.Assume("violations that rest on absence of progress (request-not-reissued, probe-starved) are raised only after 30 s without any event in the scenario (the longest worker timeout a scenario can legitimately reach is 8 s: at most three scripted silences, 2 s doubling) and only if the scenario's own dispatcher goroutine (pprof label) is parked at one statement in two samples 2 s apart; Stop-blocked likewise")
@@ -149,14 +152,19 @@ func runChild() {
 
 	n := r.Pick(300, 40000)
 	nIdle := r.Pick(24, 3000)
+	nQuiet := r.Pick(27, 3000)
 	if *l2Only {
-		n, nIdle = 0, 0
+		n, nIdle, nQuiet = 0, 0, 0
 	}
 	if *idleOnly {
-		n, *noL2 = 0, true
+		n, nQuiet, *noL2 = 0, 0, true
+	}
+	if *quietOnly {
+		n, nIdle, *noL2 = 0, 0, true
 	}
 	scs := c12.Generate(r.Seed, n)
 	scs = append(scs, c12.GenerateIdleStall(r.Seed, nIdle, n)...)
+	scs = append(scs, c12.GenerateQuietReconnect(r.Seed, nQuiet, n+nIdle)...)
 	width := r.Pick(128, 192)
 	if *conc > 0 {
 		width = *conc
@@ -173,11 +181,18 @@ func runChild() {
 			Seed    int64 `json:"seed"`
 			Witness struct {
 				Scenario json.RawMessage `json:"scenario"`
+				Name     string          `json:"name"`
 			} `json:"witness"`
 		}
 		if json.Unmarshal(b, &l2doc) == nil {
 			var k int
 			if json.Unmarshal(l2doc.Witness.Scenario, &k) == nil {
+				// The quiet-reconnect mirror names its scenario itself (its
+				// position in the list depends on the tier).
+				var j int
+				if n, _ := fmt.Sscanf(l2doc.Witness.Name, "c12-l2q-%d", &j); n == 1 {
+					k = c12.L2QuietBase + j
+				}
 				for i := 0; i < max(*repeat, 1); i++ {
 					c12.L2Replay(r, l2doc.Seed, k)
 				}
@@ -225,7 +240,8 @@ func runChild() {
 		}
 		go func() {
 			defer close(l2Done)
-			l2.RunScenariosCB(r, c12.L2Count(r), c12.L2ChildTimeout, c12.L2Scenario, func(res *l2.Result) {
+			nL2, fL2 := c12.L2All(r)
+			l2.RunScenariosCB(r, nL2, c12.L2ChildTimeout, fL2, func(res *l2.Result) {
 				l2mu.Lock()
 				l2Cases++
 				if res.Nontrivial {
@@ -252,8 +268,9 @@ func runChild() {
 	)
 	// The idle-stall family is started first (its scenarios sit at the end of
 	// the list so that -only keeps its meaning); order of starting only.
+	first := func(k string) bool { return k == "idlestall" || k == "quietreconn" }
 	sort.SliceStable(scs, func(i, j int) bool {
-		return scs[i].Kind == "idlestall" && scs[j].Kind != "idlestall"
+		return first(scs[i].Kind) && !first(scs[j].Kind)
 	})
 	for _, sc := range scs {
 		sc := sc
@@ -317,6 +334,16 @@ func runChild() {
 			totals["idlestall_progress_then_stall_judged_peers_silent"] == 0) {
 		r.Inconclusive("idle-stall family: no batch was observed getting its idle verdict after progress followed by a stall")
 	}
+	fmt.Printf("C12 quiet-reconnect family: scenarios=%d same-address reconnects while idle=%d (announced before the old connection was reported gone=%d); batches=%d, served by a re-connected peer=%d, of those with it as the only responsive peer connected=%d; connected idle peer unused while others served=%d\n",
+		totals["quietreconn_scenarios"], totals["quietreconn_same_address_reconnects_while_idle"],
+		totals["quietreconn_reannounced_before_old_connection_reported_gone"], totals["quietreconn_batches"],
+		totals["quietreconn_batches_served_by_reconnected_peer"],
+		totals["quietreconn_batches_served_by_reconnected_peer_as_only_responsive_peer"],
+		totals["quietreconn_connected_peer_unused_while_others_served"])
+	if *replay == "" && *only < 0 && nQuiet > 0 && r.Violations() == 0 &&
+		totals["quietreconn_batches_served_by_reconnected_peer_as_only_responsive_peer"] == 0 {
+		r.Inconclusive("quiet-reconnect family: no batch was observed being served by a peer that had re-connected under its old address as the only responsive peer")
+	}
 	floor := r.Pick(40, 300)
 	if *replay != "" || *only >= 0 {
 		floor = 1
@@ -325,6 +352,9 @@ func runChild() {
 		floor = r.Pick(4, 40)
 	}
 	if *idleOnly {
+		floor = r.Pick(10, 100)
+	}
+	if *quietOnly {
 		floor = r.Pick(10, 100)
 	}
 	fmt.Printf("C12 L2 family: scenarios=%d non-trivial=%d\n", l2Cases, l2Good)
